@@ -19,6 +19,8 @@ pub(crate) struct Html5Serializer<'a, N: Normalizer> {
     // elements without declarations of their own for which a default
     // namespace was added: their entry has to be popped again
     added_default: Vec<Node>,
+    // the node that is being serialized: its parent is not part of the output
+    top: Node,
     normalizer: N,
 }
 
@@ -78,6 +80,7 @@ impl<'a, N: Normalizer> Html5Serializer<'a, N> {
             cdata_section_names,
             fullname_serializer,
             added_default: Vec::new(),
+            top: node,
             normalizer,
         }
     }
@@ -307,10 +310,13 @@ impl<'a, N: Normalizer> Html5Serializer<'a, N> {
                 // a text node is usually the child of an element, but it can
                 // also sit directly under a document node (a fragment) or be
                 // serialized on its own: it is then escaped as HTML text
-                let element = self
-                    .xot
-                    .parent(node)
-                    .and_then(|parent| self.xot.element(parent));
+                let element = if node == self.top {
+                    None
+                } else {
+                    self.xot
+                        .parent(node)
+                        .and_then(|parent| self.xot.element(parent))
+                };
                 let value = if let Some(element) = element {
                     if self
                         .html5_elements
